@@ -6,7 +6,7 @@ import h2.exceptions
 from h2.errors import ErrorCodes
 from h2.settings import SettingCodes
 
-from engine.core import (sym_int, sym_bool, check, note, s_and, s_or, s_not, s_le, s_lt,
+from engine.core import (sym_int, sym_bool, sym_choice, check, note, s_and, s_or, s_not, s_le, s_lt,
                          s_ite, s_min, s_between, INT31)
 from engine import h2h, models
 from engine.models import sym_bytes
@@ -238,6 +238,42 @@ def h_acknowledge(client):
     return h
 
 
+def h_closed_connection(client):
+    """on a connection that is already closed every window-changing call raises -- and, like
+    any such call that raises, changes no window and emits nothing"""
+    def h():
+        how = sym_choice('closed_by', ['close_connection', 'goaway-received'])
+        with h2h.native():
+            me = _witness(client)
+            if how == 'close_connection':
+                me.close_connection()
+            else:
+                g = hf.GoAwayFrame(0)
+                me.receive_data(g.serialize())
+            me.data_to_send()
+        pre = _pre(me)
+        call = sym_choice('call', ['acknowledge', 'increment-stream', 'increment-connection'])
+        out = models.Out(me)
+        try:
+            if call == 'acknowledge':
+                me.acknowledge_received_data(sym_int('ack', 0, INT31, default=40000), 1)
+            else:
+                me.increment_flow_control_window(
+                    sym_int('inc', 1, INT31, default=100),
+                    stream_id=1 if call == 'increment-stream' else None)
+        except (h2.exceptions.ProtocolError, ValueError):
+            note('raised')
+            check(out.nbytes() == 0, 'raise-emits', None)
+            _same(me, pre, 'raise-changes-window')
+            _inv(me, 'closed-raised')
+        else:
+            note('returned')
+            # nothing may be advertised any more (C19), so nothing may have moved
+            check(out.nbytes() == 0, 'closed-connection-emits', None)
+            _same(me, pre, 'window-moves-without-update-on-closed-connection')
+    return h
+
+
 def h_settings(client):
     """update_settings(INITIAL_WINDOW_SIZE) changes nothing until the peer's ACK; the ACK
     moves every stream window by the delta (conn window untouched)."""
@@ -445,6 +481,8 @@ def shards(tier, seed):
                          expect=['acked', 'range']))
         out.append(Shard('settings_ack/%s' % r, h_settings(client),
                          expect=['applied', 'overflow']))
+        out.append(Shard('closed_connection/%s' % r, h_closed_connection(client),
+                         expect=['raised']))
         out.append(Shard('new_stream_around_ack/%s' % r, h_new_stream_around_ack(client),
                          expect=['acked']))
         out.append(Shard('data_on_closed_stream/%s' % r, h_data_closed_stream(client),
